@@ -37,6 +37,9 @@ type tcase struct {
 	Side   json.RawMessage `json:"side,omitempty"`
 	Core   *bool           `json:"core,omitempty"`
 	Lits   json.RawMessage `json:"lits,omitempty"`
+	// generator cases: the JSON texts themselves (a tagged value cannot carry 1e1000 back to text)
+	InputText  string   `json:"-"`
+	InputsText []string `json:"-"`
 }
 
 // tagged value (JsonVal.tla) -> JSON text
@@ -153,8 +156,16 @@ func replay(cases []tcase, singleEvery int) []event {
 	var progs []string
 	for i := range cases {
 		c := cases[i]
-		w := &work{c: c, input: untagRaw(c.Input), ev: event{"id": c.ID, "prog": c.Prog, "input": c.Input}}
-		if len(c.Inputs) > 0 {
+		w := &work{c: c, ev: event{"id": c.ID, "prog": c.Prog, "input": c.Input}}
+		if c.InputText != "" {
+			w.input = c.InputText
+		} else {
+			w.input = untagRaw(c.Input)
+		}
+		if c.InputsText != nil {
+			w.inputs = c.InputsText
+			w.ev["inputs"] = c.Inputs
+		} else if len(c.Inputs) > 0 {
 			var xs []any
 			kit.Unmarshal(c.Inputs, &xs)
 			for _, x := range xs {
